@@ -8,7 +8,7 @@ structure.
 import asyncio
 import logging
 import os.path
-from datetime import UTC, datetime
+from datetime import UTC, date, datetime
 from email.message import EmailMessage
 from enum import StrEnum
 from pathlib import Path
@@ -470,16 +470,28 @@ class IMAPSearch:
 
     #########################################################################
     #
+    def _sent_date(self) -> date | None:
+        """
+        The date of the message's Date: header, or None if the message
+        has no Date: header or it can not be parsed.
+        """
+        msg = self.ctx.msg()
+        if "date" not in msg:
+            return None
+        try:
+            return parsedate(msg["date"]).date()
+        except (TypeError, ValueError):
+            return None
+
+    #########################################################################
+    #
     async def _match_sentbefore(self) -> bool:
         """
         Messages whose [RFC-822] Date: header is earlier than the
         specified date.
         """
-        msg = self.ctx.msg()
-        if "date" not in msg:
-            return False
-        msg_date = parsedate(msg["date"]).date()
-        return msg_date < self.args["date"]
+        msg_date = self._sent_date()
+        return msg_date is not None and msg_date < self.args["date"]
 
     #########################################################################
     #
@@ -488,11 +500,8 @@ class IMAPSearch:
         Messages whose [RFC-822] Date: header is within the specified
         date.
         """
-        msg = self.ctx.msg()
-        if "date" not in msg:
-            return False
-        msg_date = parsedate(msg["date"]).date()
-        return msg_date == self.args["date"]
+        msg_date = self._sent_date()
+        return msg_date is not None and msg_date == self.args["date"]
 
     #########################################################################
     #
@@ -501,11 +510,8 @@ class IMAPSearch:
         Messages whose [RFC-822] Date: header is later than the
         specified date.
         """
-        msg = self.ctx.msg()
-        if "date" not in msg:
-            return False
-        msg_date = parsedate(msg["date"]).date()
-        return msg_date >= self.args["date"]
+        msg_date = self._sent_date()
+        return msg_date is not None and msg_date >= self.args["date"]
 
     #########################################################################
     #
